@@ -133,6 +133,16 @@ class C08(XsProp):
         for t in ['#####', '00000#####', '####0', '#####0', '##########', '====', '========', '=', '#']:
             for w_ in ('zero85>', 'base32>', 'base32hex>', 'base64>'):
                 cs.append('xs limits 600 80 40 | push %s | eval %s | pretty | stack' % (cells.fmt(('S', t.encode())), hexsrc(w_)))
+        # numeric reads at every width on inputs whose top bit is set / all ones / alternating (family added after round 11: the sign
+        # extension of a 127-bit field overflowed in a seeded change), both byte orders, aligned and from bit 3
+        for wd in list(range(1, 130)):
+            for data in ('ff' * 17, '80' + '00' * 16, 'aa' * 17, '7f' + 'ff' * 16):
+                for ordw in ('big', 'little'):
+                    for rd in ('int', 'uint'):
+                        if (wd + (0 if data != 'aa' * 17 else 3)) % 4 != 0 and data != 'ff' * 17 and wd not in (1, 63, 64, 65, 126, 127, 128, 129):
+                            continue
+                        skip = '3 bits drop ' if data == 'aa' * 17 else ''
+                        cs.append('xs limits 600 80 40 | eval %s | pretty | stack' % hexsrc('%s |%s| open-bitstr %s%d %s' % (ordw, data, skip, wd, rd)))
         # witness of the repaired D36: the enum field after a field with the largest integer (panicked in the overflow-checking build)
         for src in ['enum E 170141183460469231731687303715884105727 = A : B endenum', 'enum E 170141183460469231731687303715884105726 = A : B : C endenum A B',
                     ': f enum E 170141183460469231731687303715884105727 = A : B endenum ; 1', 'enum E -170141183460469231731687303715884105728 = A : B endenum B']:
